@@ -167,6 +167,7 @@ def compute_surface(F):
     sig_fns = [d for d in defs if d not in leaves and d not in DECIDED_ELSEWHERE]
     S["stream"]["thresholds"] = thresholds(F, sig_fns)
     S["stream"]["arith"] = arith(F, sig_fns)
+    S["stream"]["skeleton"] = skeleton(F, sig_fns)
     # ---- closed forms -------------------------------------------------------------------------------
     for d in leaves:
         try:
@@ -389,6 +390,59 @@ def arith(F, fns):
     return [[list(k), v] for k, v in sorted(cnt.items(), key=lambda kv: repr(kv[0]))]
 
 
+_CORE = re.compile(r"^(<)?preflate_rs::(tree_predictor|token_predictor|hash_chain_holder|hash_chain|huffman_calc|add_policy_estimator|process)::")
+
+
+def skeleton(F, fns):
+    """Decision / indexing skeleton of the predictor core (the code that turns stored corrections back into tokens and trees
+    and that no same-build test can hold to its past behaviour): global multiset of
+      ("cmp", eq|ord, operand type)   every two-way decision on a comparison, constant or not (panics and logging excluded),
+      ("slice", Range|RangeFrom|...)  every slicing by a range, ("at", 1) every element access by index.
+    Global, not per function, and without calls: moving code between functions, extracting or inlining helpers, renaming and
+    reordering leave it unchanged.  Rewriting a loop or a condition so that the *number or kind* of decisions or slice
+    operations changes is reported — these functions define the stored format (⚠, DESIGN §8.8)."""
+    from collections import Counter
+    cnt = Counter()
+    for d in fns:
+        if not _CORE.match(d):
+            continue
+        b = F.bodies[d]
+        for sb in sorted(b.normal_blocks()):
+            st = b.term(sb)
+            if st["k"] == "switch" and len(st["targets"]) == 1:
+                tg = [st["targets"][0][1], st["otherwise"]]
+                if any(_panics(b, x) for x in tg) or _only_logs(b, tg[0], tg[1]) or _only_logs(b, tg[1], tg[0]):
+                    continue
+                dp = op_place(st["d"])
+                dd = b.single_def(dp["l"]) if dp is not None and not dp["p"] else None
+                if dd and dd[2] == "assign" and dd[3]["k"] == "binop" and dd[3]["op"] in ("Lt", "Le", "Gt", "Ge", "Eq", "Ne"):
+                    r = dd[3]
+                    xp = op_place(r["l"]) or op_place(r["r"])
+                    ty = b.local_ty(xp["l"]) if xp is not None and not xp["p"] else "?"
+                    cnt[("cmp", "eq" if r["op"] in ("Eq", "Ne") else "ord", ty)] += 1
+            elif st["k"] == "call":
+                n = strip_generics(callee_def(st))
+                if re.search(r"ops::Index(Mut)?>?::index(_mut)?$|ops::index::Index(Mut)?::index(_mut)?$", n) and len(st["args"]) == 2:
+                    ap = op_place(st["args"][1])
+                    ty = b.local_ty(ap["l"]) if ap is not None and not ap["p"] else ""
+                    m = re.search(r"ops::(RangeInclusive|RangeToInclusive|RangeFrom|RangeTo|RangeFull|Range)\b", ty)
+                    cnt[("slice", m.group(1) if m else "index")] += 1
+            for s in b.stmts(sb):
+                if s.get("k") != "assign":
+                    continue
+                places = [s["p"]]
+                r = s["r"]
+                for key in ("op", "l", "r", "place"):
+                    o = r.get(key)
+                    pp = op_place(o) if isinstance(o, dict) and ("c" in o or "m" in o) else (o if isinstance(o, dict) and "l" in o and "p" in o else None)
+                    if pp is not None:
+                        places.append(pp)
+                for pl in places:
+                    if any(isinstance(e, dict) and "i" in e for e in pl["p"]):
+                        cnt[("at", 1)] += 1
+    return [[list(k), v] for k, v in sorted(cnt.items(), key=lambda kv: repr(kv[0]))]
+
+
 def _consts_in(j):
     if isinstance(j, dict):
         if "k" in j and isinstance(j["k"], dict) and "ty" in j["k"]:
@@ -499,11 +553,11 @@ def run(ctx, rep):
                 rep.add(rule, k, True, "", "differs from the reference, announced by the %s version change" % GATE[part])
             else:
                 what = "removed from" if cv is None else ("new in" if rv is None else "changed in")
-                if k in ("thresholds", "arith") and isinstance(rv, list) and isinstance(cv, list):
+                if k in ("thresholds", "arith", "skeleton") and isinstance(rv, list) and isinstance(cv, list):
                     ra, ca = {json.dumps(a): n for a, n in rv}, {json.dumps(a): n for a, n in cv}
                     gone = ["%s x%d" % (a, ra[a] - ca.get(a, 0)) for a in ra if ra[a] > ca.get(a, 0)]
                     new = ["%s x%d" % (a, ca[a] - ra.get(a, 0)) for a in ca if ca[a] > ra.get(a, 0)]
-                    noun = "decisions" if k == "thresholds" else "operations with a constant"
+                    noun = {"thresholds": "decisions", "arith": "operations with a constant", "skeleton": "decision/indexing elements of the predictor core"}[k]
                     rv, cv = "%s no longer present: %s" % (noun, gone), "new %s: %s" % (noun, new)
                 rep.add(rule, k, False, "", "%s the format surface while %s is unchanged: stored data of the reference build would be interpreted differently. reference=%s current=%s" % (
                     what, {"wrapper": "COMPRESSED_WRAPPER_VERSION_1", "file": "FILE_VERSION"}[GATE[part]], _short(rv), _short(cv)))
